@@ -80,7 +80,8 @@ def _sys_dist(pid, tier, seed, own, fams, nq, nt, cq, ct, emphasis, dq, dt, size
 
 
 def check_C04(tier, seed):
-    em = lambda r: {"batch": r.choice([1, 1, 1, 2]), "period": r.choice([0, 0, 0, 20]), "threads": r.choice([2, 2, 3, 3, 4])}
+    em = lambda r: {"batch": r.choice([1, 1, 1, 2]), "period": r.choice([0, 0, 0, 20]), "threads": r.choice([2, 2, 3, 3, 4]),
+                    "skew": r.choice([0, 30, 150, 600])}
     return _sys_dist("C04", tier, seed, ["C04"], ["mixed", "fanout", "zerodelay", "ties"], 6, 30, 5, 12, em, 6, 14, "small", "medium")
 
 
